@@ -1,55 +1,50 @@
 #!/venv/bin/python
 """Developer tool: re-run all registered checks against every behaviour-preserving refactoring under
-/verif/seeded_benign (applied to /repo, undone afterwards) and record the outcome in meta.json under "recheck"
-(the first-run record, including the false alarms that led to machinery fixes, is kept as history).
+/verif/seeded_benign (applied to a scratch copy of the package sources, never to /repo) and record the outcome
+in meta.json under "recheck" (the first-run record, including the false alarms that led to machinery fixes, is
+kept as history).
 usage: rerun_benign.py [id ...]"""
-import json, os, subprocess, sys, datetime
+import json, os, sys, datetime
 from concurrent.futures import ThreadPoolExecutor
 
+sys.path.insert(0, os.path.dirname(os.path.abspath(__file__)))
+from scratch import checks_on_patch, sh
 
-def sh(cmd, cwd=None, env=None, timeout=900):
-    r = subprocess.run(cmd, shell=True, cwd=cwd, env=env, capture_output=True, text=True, timeout=timeout)
-    return r.returncode, r.stdout + r.stderr
+HEAD = sh("git -C /repo rev-parse --short HEAD")[1].strip()
+
+
+def one(sid):
+    d = os.path.join("/verif/seeded_benign", sid)
+    patch = os.path.join(d, "patch.diff")
+    if not os.path.exists(patch):
+        return sid, None
+    res = checks_on_patch(patch, nlines=4)
+    if res is None:
+        return sid, "PATCH DOES NOT APPLY"
+    mp = os.path.join(d, "meta.json")
+    meta = json.load(open(mp)) if os.path.exists(mp) else {}
+    bad = {p: {"exit": rc, "report": l} for p, (rc, l) in res.items() if rc != 0}
+    meta["recheck"] = {"repo_head": HEAD, "date": datetime.date.today().isoformat(),
+                       "silent": not bad, "nonzero": bad}
+    json.dump(meta, open(mp, "w"), indent=1)
+    return sid, bad
 
 
 def main():
-    base = "/verif/seeded_benign"
-    ids = sys.argv[1:] or sorted(os.listdir(base))
-    man = json.load(open("/verif/MANIFEST.json"))
-    claimed = [c["property_id"] for c in man["checks"]]
+    ids = sys.argv[1:] or sorted(os.listdir("/verif/seeded_benign"))
     rc, out = sh("git -C /repo status --porcelain --untracked-files=no")
     assert out.strip() == "", "/repo has local modifications"
-    head = sh("git -C /repo rev-parse --short HEAD")[1].strip()
     loud = {}
-    for sid in ids:
-        d = os.path.join(base, sid)
-        patch = os.path.join(d, "patch.diff")
-        if not os.path.exists(patch):
-            continue
-        rc, out = sh(f"git -C /repo apply {patch}")
-        if rc != 0:
-            print(sid, "PATCH DOES NOT APPLY", out[:200])
-            continue
-        try:
-            env = dict(os.environ, NSSA_NO_EVIDENCE="1")
-
-            def one(p):
-                rc, out = sh(f"/verif/check {p}", cwd="/verif", env=env, timeout=600)
-                return p, rc, [l for l in out.splitlines() if l.startswith(("VIOLATION", "  ", "ANALYSIS-ERROR"))][:4]
-            with ThreadPoolExecutor(10) as ex:
-                res = list(ex.map(one, claimed))
-        finally:
-            sh("git -C /repo checkout -- .")
-        mp = os.path.join(d, "meta.json")
-        meta = json.load(open(mp)) if os.path.exists(mp) else {}
-        bad = {p: {"exit": rc, "report": l} for p, rc, l in res if rc != 0}
-        meta["recheck"] = {"repo_head": head, "date": datetime.date.today().isoformat(),
-                           "silent": not bad, "nonzero": bad}
-        json.dump(meta, open(mp, "w"), indent=1)
-        print(f"{sid:40s} {'silent' if not bad else 'ALARM ' + str(sorted(bad))}")
-        if bad:
-            loud[sid] = sorted(bad)
-    print("NOT SILENT:", loud)
+    with ThreadPoolExecutor(14) as ex:
+        for sid, bad in ex.map(one, ids):
+            if bad is None:
+                continue
+            if isinstance(bad, str):
+                print(sid, bad); continue
+            print(f"{sid:40s} {'silent' if not bad else 'ALARM ' + str(sorted(bad))}", flush=True)
+            if bad:
+                loud[sid] = {p: v["report"][:2] for p, v in bad.items()}
+    print("NOT SILENT:", json.dumps(loud, indent=1)[:6000])
 
 
 if __name__ == "__main__":
